@@ -22,7 +22,7 @@ def _factory(params, env=None):
             ans = params["answers"][e.choose("answer", len(params["answers"]))]
         else:
             ans = ANSWERS[e.choose("answer", len(ANSWERS))] if params.get("answer") is None else params["answer"]
-        cl, cr = CONTENTS[e.choose("contents", len(CONTENTS))] if (params.get("rounds", 1) == 1 and not params.get("answers")) else CONTENTS[0]
+        cl, cr = CONTENTS[e.choose("contents", len(CONTENTS))] if (params.get("rounds", 1) == 1 and (not params.get("answers") or params.get("all_contents"))) else CONTENTS[0]
         calls = []
         ans_box = [ans]
 
@@ -221,6 +221,11 @@ def jobs(tier):
     for f in (("oid", "path") if q else ("oid", "path", "mixed", "oid-ci")):
         for shape in ("create/create", "edit/edit"):
             out.append({"harness": "resolve", "params": {"flavour": f, "shape": shape, "slots": 2 if q else 3}, "label": "%s/%s/%d-slots" % (f, shape, 2 if q else 3)})
+    # providers with different hash functions (every real pair): identical content must still be recognised as identical
+    for f in ("oid-h2", "path-h2"):
+        for shape in ("create/create", "edit/edit"):
+            out.append({"harness": "resolve", "params": {"flavour": f, "shape": shape, "slots": 2, "answers": ["none", "local/keep", "merged/drop"], "all_contents": True},
+                        "label": "%s/%s/2-slots/different-hash-functions" % (f, shape)})
     # long schedules (5 slots: e.g. both intakes, then three sync steps before the next intake) on the outcomes that rename the loser aside
     for f in (("path", "oid") if q else ("oid", "path", "mixed")):
         for shape in ("create/create", "edit/edit"):
@@ -243,7 +248,7 @@ def meta(tier):
                        "(pick either side x keep, merged data x keep, None, exception, non-tuple, wrong arity, non-file) x every schedule of 2 (thorough 3) slots after the conflict exists, "
                        "through the real engine with the application's resolver replaced. Oracles: call count (0 iff equal contents, else exactly 1), bytes and side labels of both handles, "
                        "the outcome table of the statement on both final trees; and schedule independence: both final trees equal, exactly, those the same conflict produces under the canonical fair schedule. A second family settles a first conflict (5 well-formed answers) and then lets both sides edit the same file again: the second conflict is judged by the same oracle under every schedule.",
-        "bounds": {"answers": ANSWERS, "content pairs": [(a[:4].decode("latin1"), b[:4].decode("latin1")) for a, b in CONTENTS], "slots": "2 (3)", "flavours": "oid, path (thorough + mixed, case-insensitive)"},
+        "bounds": {"answers": ANSWERS, "content pairs": [(a[:4].decode("latin1"), b[:4].decode("latin1")) for a, b in CONTENTS], "slots": "2 (3)", "flavours": "oid, path (thorough + mixed, case-insensitive); plus both with a second hash function on the remote provider"},
         "symbolic": ["resolver behaviour", "content pair", "schedule slots"],
         "outside": ["arbitrary contents beyond the representative pairs", "conflicts on more than one file at once", "more than two successive conflicts on one file", "folder/file conflicts (C02)"],
         "stubs": ["engine lab determinisation", "CloudSync.resolve_conflict overridden in a subclass (the documented override point)"],
